@@ -9,6 +9,9 @@ invariants SafeRemoval (C35) and NoLeak (by-product: no orphan CID in the blocks
 with a scripted daser that refuses the blocks it 'is sampling' and others by coin; random stores
 with gaps, pruned holes, sampled marks, metadata; both window orderings.  Trace_Pruner tracks the
 store from the recorded calls and evaluates SafeRemoval at every remove_height.
+->B: Gen_Pruner: TLC enumerates every store configuration over 1..N (never synced / pruned / stored / with metadata /
+sampled per height) x daser policy, and runs the design to its fixpoint; the harness builds each configuration for
+the real pruner; Trace_Pruner judges the recorded run, the design's final store is compared as drift.
 """
 import json
 import vf
@@ -21,7 +24,9 @@ ENTRIES = {
                 "stores with gaps / holes / sampled sets / metadata, pruning window smaller and larger than the "
                 "sampling window) are validated by Trace_Pruner: every remove_height must be outside the pruning "
                 "window, inside the sampling window only if sampled and not an edge of stored+pruned, not refused or "
-                "in progress according to the daser, and preceded by blockstore.remove of every recorded CID.",
+                "in progress according to the daser, and preceded by blockstore.remove of every recorded CID. Spec->impl: every "
+                "store configuration over 4 (thorough 5) heights x 4 daser policies x window orderings enumerated by TLC "
+                "from Pruner.tla is built for the real pruner and judged the same way.",
         "design_ref": "7 C35",
         "note": "Real clock with headers 100 s apart and window edges 50 s from any header time. The daser is scripted "
                 "(the real Daser's side of the handshake, on_want_to_prune, is covered by C33/C34's model and traces).",
@@ -43,6 +48,7 @@ def run(ck):
         ck.tlc_mc("MC_Node", ck.cfg_with("MC_Node.cfg", {"WSamp": ws, "WPrune": wp, "N": 4 if ck.quick else 5},
                                           name=f"MC_Node_{wp}.cfg"), tag=f"mc_node_{wp}", timeout=3000,
                   required_actions=["ComputeBatch", "RemoveNext", "Schedule", "SampleOk", "FetchNext", "BatchOk"])
+    guided_validate(ck, hb)
     runs = 8 if ck.quick else 60
     for i, (n, ks, kp) in enumerate(COMBOS if not ck.quick else COMBOS[:3]):
         trace = f"{ck.work}/trace{i}.ndjson"
@@ -68,6 +74,42 @@ def run(ck):
         ck.validate_trace_runs("Trace_Pruner", cfg, trace, on_reject, reset_name="init")
     ck.cov["rule"] = ("one evaluation = one recorded pruner run on a random store; non-trivial = run with >= 3 removals, "
                       ">= 1 granted and >= 1 refused want_to_prune")
+
+
+def guided_validate(ck, hb):
+    """spec -> impl: every small configuration of Pruner.tla's store x daser policy (enumerated by TLC, which also
+    runs the design to its fixpoint) is built for the real pruner; the recorded run is judged by Trace_Pruner."""
+    n = 4 if ck.quick else 5
+    for gi, (ks, kp) in enumerate([(3, 2), (2, 3)] if ck.quick else [(3, 2), (2, 3), (4, 1), (2, 2)]):
+        gcfg = ck.cfg_with("Gen_Pruner.cfg", {"N": n, "WSamp": ks, "WPrune": kp}, name=f"Gen_Pruner_{gi}.cfg")
+        cases, _ = ck.tlc_gen("Gen_Pruner", gcfg, f"configs{gi}.ndjson", tag=f"gen_pruner{gi}", timeout=2400)
+        trace = f"{ck.work}/trace_guided{gi}.ndjson"
+        s = ck.harness(hb, ["record", "pruner", "--cases", cases, "--out", trace, "--n", n, "--wsamp", ks, "--wprune", kp],
+                       f"replay_guided{gi}", timeout=3000)
+        p = s["props"]["C35"]
+        ck.cov["evaluations"] += p["evaluations"]
+        ck.cov["distinct_nontrivial"] += p["distinct_nontrivial"]
+        ck.cov["drift"] += p.get("drift", 0)
+        ck.cov["samples"] += p["samples"][:1]
+        for d in s.get("drift", [])[:5]:
+            vf.log(f"DRIFT property=C35 {json.dumps(d)[:300]}")
+        consts = {"WSamp": ks, "WPrune": kp}
+        cfg = ck.cfg_with("Trace_Pruner.cfg", consts, name=f"Trace_Pruner_g{gi}.cfg")
+
+        def on_reject(rej, run_lines, idx, consts=consts):
+            ev = rej["event"] if isinstance(rej["event"], dict) else {}
+            inv = rej.get("invariant")
+            if inv == "SafeRemoval" or ev.get("name") in ("remove", "bsremove"):
+                ck.violation({"kind": "unsafe-removal" if inv else "trace-reject", "event": ev.get("name"), "invariant": inv,
+                              "dir": "spec->impl"},
+                             f"TLC-enumerated configuration {run_lines[0][:120]}: removal at event {idx} violates SafeRemoval: "
+                             f"{json.dumps(ev)[:200]}",
+                             {"trace": run_lines[:idx + 1], "reject": rej, "consts": consts})
+            else:
+                ck.cov["drift"] += 1
+                vf.log(f"DRIFT property=C35 event {ev.get('name')} not explained: {json.dumps(ev)[:200]}")
+
+        ck.validate_trace_runs("Trace_Pruner", cfg, trace, on_reject, reset_name="init", max_rejects=12)
 
 
 def replay(ck):
